@@ -1,1 +1,235 @@
-pub fn worker(_args: &[String]) -> i32 { 2 }
+//! C19 — same source, same bytes: in-process, across processes with chosen hash seeds, via simc.
+
+use crate::drive;
+use crate::gen;
+use crate::props::c01;
+use crate::report::Report;
+use crate::tokens;
+use serde_json::json;
+use std::collections::{BTreeMap, BTreeSet, HashMap};
+use std::process::Command;
+
+const CORPUS_DIR: &str = "/verif/target/c19-corpus";
+const SIMC: &str = "/verif/target/repo/release/simc";
+const SHIM: &str = "/verif/target/getrandom_shim.so";
+
+fn hex(b: &[u8]) -> String {
+    b.iter().map(|x| format!("{x:02x}")).collect()
+}
+
+fn base64(b: &[u8]) -> String {
+    const T: &[u8; 64] = b"ABCDEFGHIJKLMNOPQRSTUVWXYZabcdefghijklmnopqrstuvwxyz0123456789+/";
+    let mut s = String::new();
+    for c in b.chunks(3) {
+        let n = (c[0] as u32) << 16 | (*c.get(1).unwrap_or(&0) as u32) << 8 | *c.get(2).unwrap_or(&0) as u32;
+        s.push(T[(n >> 18) as usize & 63] as char);
+        s.push(T[(n >> 12) as usize & 63] as char);
+        s.push(if c.len() > 1 { T[(n >> 6) as usize & 63] as char } else { '=' });
+        s.push(if c.len() > 2 { T[n as usize & 63] as char } else { '=' });
+    }
+    s
+}
+
+/// One compilation, as a comparable line: "ok <hex of commit encoding> <cmr>" or "err".
+fn compile_line(text: &str, debug: bool) -> String {
+    match drive::guard(|| simfony::CompiledProgram::new(text, simfony::Arguments::default(), debug).map(|c| (c.commit().encode_to_vec(), c.commit().cmr()))) {
+        Ok(Ok((bytes, cmr))) => format!("ok {} {}", hex(&bytes), cmr),
+        Ok(Err(_)) => "err".into(),
+        Err(p) => format!("panic {}", drive::panic_site(&p)),
+    }
+}
+
+fn corpus(quick: bool) -> Vec<(String, String)> {
+    let mut out: Vec<(String, String)> = tokens::examples().into_iter().map(|(n, t)| (format!("ex-{n}"), t)).collect();
+    let fams = c01::families(true);
+    let (jobs, fns, _, _) = c01::enumerate(&fams[..1], None);
+    let n = if quick { 120 } else { 400 };
+    let stride = (jobs.len() / n).max(1);
+    for (i, job) in jobs.iter().enumerate().step_by(stride).take(n) {
+        let fam = &fams[job.fam].1;
+        let free = gen::free_typed(&job.expr, &fam.universe);
+        let extra = gen::fns_for(&job.expr, &fns[job.fam]);
+        out.push((format!("fam-{i:05}.simf"), gen::wrap_term(&job.expr, &job.ty, &free, &extra).render()));
+    }
+    for (n, p) in crate::families::static_family() {
+        out.push((format!("static-{n}.simf"), p.render()));
+    }
+    // rejected texts
+    let bad = [
+        "", "fn main() {", "fn main() { let x: u8 = 256; }", "fn main() { let x: u8 = y; }", "fn f() {}", "fn main() { assert!(1); }", "type A = B; fn main() {}", "fn main() { jet::verify(true); }", "fn main() -> u8 { 1 }",
+        "fn main(a: u8) {}", "fn main() {} fn main() {}", "fn main() { let (a, a): (u8, u8) = (1, 2); }", "fn main() { let x: u8 = witness::A; let y: u8 = witness::A; }", "fn f() -> u8 { witness::A } fn main() {}", "fn main() { let x: List<u8, 3> = list![]; }",
+        "fn main() { let x: u16 = <u8>::into(1); }", "fn main() { let x: u8 = unwrap(1); }", "fn main() {\r\n let x: bool = 2;\r\n}", "é", "fn main() { let x: [u8; 2] = [1]; }",
+    ];
+    for (i, b) in bad.iter().enumerate() {
+        out.push((format!("bad-{i:02}.simf"), b.to_string()));
+    }
+    out
+}
+
+/// probe: iteration order of a std HashMap over four names (measures hash-seed diversity)
+fn probe_order() -> String {
+    let mut m = HashMap::new();
+    for n in ["alpha", "beta", "gamma", "delta"] {
+        m.insert(n, ());
+    }
+    m.keys().copied().collect::<Vec<_>>().join(",")
+}
+
+/// worker process: compile every corpus file with both flags; print one line per (file, flag)
+pub fn worker(_args: &[String]) -> i32 {
+    println!("PROBE {}", probe_order());
+    let mut files: Vec<_> = match std::fs::read_dir(CORPUS_DIR) {
+        Ok(rd) => rd.filter_map(|e| e.ok()).map(|e| e.path()).collect(),
+        Err(_) => return 2,
+    };
+    files.sort();
+    for f in files {
+        let Ok(text) = std::fs::read_to_string(&f) else { continue };
+        for debug in [false, true] {
+            println!("{} {} {}", f.file_name().unwrap().to_string_lossy(), debug, compile_line(&text, debug));
+        }
+    }
+    0
+}
+
+pub fn run(rep: &Report) -> i32 {
+    let quick = rep.is_quick();
+    let seeds: u64 = if quick { 8 } else { 64 };
+    let corpus = corpus(quick);
+    let _ = std::fs::remove_dir_all(CORPUS_DIR);
+    if std::fs::create_dir_all(CORPUS_DIR).is_err() {
+        rep.machinery("cannot create the corpus directory");
+        return rep.finish("", &[], false);
+    }
+    for (n, t) in &corpus {
+        if std::fs::write(format!("{CORPUS_DIR}/{n}"), t).is_err() {
+            rep.machinery("cannot write a corpus file");
+        }
+    }
+    if !std::path::Path::new(SIMC).exists() || !std::path::Path::new(SHIM).exists() {
+        rep.machinery(format!("{SIMC} or {SHIM} missing: run ./setup.sh (or ./check C19 ..., which builds them)"));
+        return rep.finish("", &[], false);
+    }
+    rep.set("bounds", json!({"corpus": corpus.len(), "hash_seeds": seeds, "in_process": "3 compilations x 4 threads per (program, flag)", "simc_runs": "every corpus file x {plain, --debug} x 2 seeds"}));
+    // reference lines
+    let mut reference: BTreeMap<(String, bool), String> = BTreeMap::new();
+    for (n, t) in &corpus {
+        for debug in [false, true] {
+            reference.insert((n.clone(), debug), compile_line(t, debug));
+            rep.state();
+        }
+    }
+    // (1) in-process repetition on several threads
+    std::thread::scope(|s| {
+        for _ in 0..4 {
+            s.spawn(|| {
+                for (n, t) in &corpus {
+                    for debug in [false, true] {
+                        for _ in 0..3 {
+                            rep.transition(1);
+                            rep.eval(1);
+                            rep.trace(1);
+                            let l = compile_line(t, debug);
+                            if l != reference[&(n.clone(), debug)] {
+                                rep.violation("C19:in-process-nondeterminism", format!("{n} (debug={debug}): two compilations in one process give different bytes / results"), json!({"kind": "determinism", "program": t, "debug": debug, "where": "in-process"}));
+                            }
+                        }
+                    }
+                }
+            });
+        }
+    });
+    // (2) separately started processes with chosen hash seeds
+    let exe = std::env::current_exe().unwrap();
+    let mut orders = BTreeSet::new();
+    let results: Vec<(u64, Option<String>)> = {
+        let seeds_v: Vec<u64> = (0..seeds).collect();
+        let out = std::sync::Mutex::new(vec![]);
+        crate::explore::par_for(&seeds_v, rep, 1, |_, &s| {
+            let o = Command::new(&exe).arg("worker").arg("c19").env("LD_PRELOAD", SHIM).env("VERIF_HASH_SEED", s.to_string()).output();
+            out.lock().unwrap().push((s, o.ok().filter(|o| o.status.success()).map(|o| String::from_utf8_lossy(&o.stdout).to_string())));
+        });
+        out.into_inner().unwrap()
+    };
+    for (s, text) in &results {
+        let Some(text) = text else {
+            rep.machinery(format!("worker for hash seed {s} failed"));
+            continue;
+        };
+        for l in text.lines() {
+            if let Some(p) = l.strip_prefix("PROBE ") {
+                orders.insert(p.to_string());
+                continue;
+            }
+            let mut it = l.splitn(3, ' ');
+            let (Some(n), Some(d), Some(rest)) = (it.next(), it.next(), it.next()) else { continue };
+            let debug = d == "true";
+            rep.transition(1);
+            rep.eval(1);
+            rep.trace(1);
+            match reference.get(&(n.to_string(), debug)) {
+                Some(r) if r == rest => rep.class("process-equal"),
+                Some(_) => {
+                    rep.class("PROCESS-DIFFERS");
+                    let text = corpus.iter().find(|c| c.0 == n).map(|c| c.1.clone()).unwrap_or_default();
+                    rep.violation("C19:cross-process-nondeterminism", format!("{n} (debug={debug}): a process started with hash seed {s} produces different bytes / result than this process"), json!({"kind": "determinism", "program": text, "debug": debug, "where": "process", "hash_seed": s}));
+                }
+                None => {}
+            }
+        }
+    }
+    rep.set("distinct_hashmap_orders_realised", json!({"of_24_possible": orders.len(), "orders": orders.iter().take(24).collect::<Vec<_>>()}));
+    if orders.len() < 3 {
+        rep.machinery(format!("hash-seed control ineffective: only {} distinct HashMap orders over {seeds} seeds", orders.len()));
+    }
+    // (3) simc
+    let jobs: Vec<(usize, bool, u64)> = (0..corpus.len()).flat_map(|i| [(i, false, 1u64), (i, true, 1), (i, false, 5), (i, true, 5)]).collect();
+    crate::explore::par_for(&jobs, rep, 8, |_, &(i, debug, seed)| {
+        let (n, t) = &corpus[i];
+        let mut c = Command::new(SIMC);
+        c.arg(format!("{CORPUS_DIR}/{n}"));
+        if debug {
+            c.arg("--debug");
+        }
+        c.env("LD_PRELOAD", SHIM).env("VERIF_HASH_SEED", seed.to_string());
+        rep.transition(1);
+        rep.eval(1);
+        rep.trace(1);
+        let Ok(o) = c.output() else {
+            rep.machinery("cannot run simc");
+            return;
+        };
+        let stdout = String::from_utf8_lossy(&o.stdout).to_string();
+        let stderr = String::from_utf8_lossy(&o.stderr).to_string();
+        let r = &reference[&(n.clone(), debug)];
+        let replay = |what: &str| json!({"kind": "simc", "program": t, "debug": debug, "stdout": stdout, "stderr": stderr, "exit": o.status.code(), "library": r.chars().take(80).collect::<String>(), "what": what});
+        if let Some(rest) = r.strip_prefix("ok ") {
+            let hexenc = rest.split(' ').next().unwrap_or("");
+            let bytes: Vec<u8> = (0..hexenc.len() / 2).map(|k| u8::from_str_radix(&hexenc[2 * k..2 * k + 2], 16).unwrap()).collect();
+            let expect = format!("Program:\n{}\n", base64(&bytes));
+            if o.status.code() != Some(0) || stdout != expect {
+                rep.class("SIMC-DIFFERS");
+                rep.violation("C19:simc-output-differs", format!("{n} (debug={debug}): simc exit {:?}, stdout differs from `Program:\\n<base64 of the library's commit encoding>\\n`", o.status.code()), replay("simc output differs from the library"));
+            } else {
+                rep.class("simc-equal");
+                if n.starts_with("ex-") || n.starts_with("static-") {
+                    rep.nontrivial(1);
+                }
+            }
+        } else if r == "err" {
+            if o.status.code() == Some(0) || stderr.trim().is_empty() {
+                rep.class("SIMC-NO-ERROR");
+                rep.violation("C19:simc-accepts-what-library-rejects", format!("{n} (debug={debug}): library returns Err, simc exit {:?} stderr {:?}", o.status.code(), stderr.chars().take(80).collect::<String>()), replay("simc should fail"));
+            } else {
+                rep.class("simc-error-equal");
+            }
+        }
+    });
+    rep.sample(3, || json!({"file": corpus[0].0, "reference": reference[&(corpus[0].0.clone(), false)].chars().take(120).collect::<String>()}));
+    let _ = std::fs::remove_dir_all(CORPUS_DIR);
+    rep.finish(
+        "state = (program, debug flag); transitions = compilations compared with the reference (in-process repeats, seeded processes, simc runs); non-trivial = shipped examples and static-family programs (several entries in the analysis maps) compared through simc",
+        &["the hash-seed space (2^128) cannot be enumerated: exhaustive over the stated seed set, with the number of distinct HashMap iteration orders realised reported", "std's RandomState obtains its keys through getrandom(2), which the LD_PRELOAD shim answers from VERIF_HASH_SEED"],
+        true,
+    )
+}
